@@ -38,12 +38,14 @@ type WOp struct {
 }
 
 type WCase struct {
-	Engine string `json:"engine"`
-	N      int    `json:"n"`
-	Ops    []WOp  `json:"ops"`
+	Engine       string `json:"engine"`
+	N            int    `json:"n"`
+	Ops          []WOp  `json:"ops"`
+	SharedStdout bool   `json:"shared_stdout_file,omitempty"` // every guest gets the same *os.File as stdout (the embedder's file must survive a guest's fd_close(1) / module close)
 }
 
 type wguest struct {
+	closed bool
 	p      *wasiproxy.Proxy
 	dir    string
 	so, se bytes.Buffer
@@ -62,13 +64,16 @@ func wpopulate(dir string) error {
 	return nil
 }
 
-func newGuest(ctx context.Context, rt wazero.Runtime, base string, i int) (*wguest, error) {
+func newGuest(ctx context.Context, rt wazero.Runtime, base string, i int, shared *os.File) (*wguest, error) {
 	g := &wguest{dir: base}
 	if err := wpopulate(base); err != nil {
 		return nil, err
 	}
 	mc := wazero.NewModuleConfig().WithName("").WithArgs("guest", fmt.Sprint(i)).WithEnv("ID", fmt.Sprint(i)).
 		WithStdout(&g.so).WithStderr(&g.se).WithFSConfig(wazero.NewFSConfig().WithDirMount(base, "/"))
+	if shared != nil {
+		mc = mc.WithStdout(shared)
+	}
 	p, err := wasiproxy.New(ctx, rt, mc, 1, -1)
 	if err != nil {
 		return nil, err
@@ -317,13 +322,25 @@ func runWasi(c *WCase, only int) (map[int][]string, string) {
 			os.RemoveAll(d)
 		}
 	}()
+	var shared *os.File
+	if c.SharedStdout {
+		sd := wdir()
+		dirs = append(dirs, sd)
+		os.MkdirAll(sd, 0o755)
+		f, err := os.Create(filepath.Join(sd, "stdout"))
+		if err != nil {
+			return nil, "harness: " + err.Error()
+		}
+		defer f.Close()
+		shared = f
+	}
 	for i := 0; i < c.N; i++ {
 		if only >= 0 && i != only {
 			continue
 		}
 		d := wdir()
 		dirs = append(dirs, d)
-		g, err := newGuest(ctx, rt, d, i)
+		g, err := newGuest(ctx, rt, d, i, shared)
 		if err != nil {
 			return nil, "harness: " + err.Error()
 		}
@@ -331,7 +348,13 @@ func runWasi(c *WCase, only int) (map[int][]string, string) {
 	}
 	for _, op := range c.Ops {
 		g := guests[op.Inst]
-		if g == nil {
+		if g == nil || g.closed {
+			continue
+		}
+		if op.K == "closemod" {
+			g.p.Mod.Close(ctx)
+			g.closed = true
+			g.trace = append(g.trace, "closemod")
 			continue
 		}
 		if msg := g.do(ctx, op); msg != "" {
@@ -389,7 +412,7 @@ func genWOp(t *rapid.T, n int) WOp {
 	fd := func() int64 { return int64(rapid.IntRange(0, 7).Draw(t, "fd")) }
 	dfd := func() int64 { return int64(rapid.SampledFrom([]int{3, 3, 3, 4, 5, 6}).Draw(t, "dirfd")) }
 	op.K = rapid.SampledFrom([]string{"open", "open", "open", "read", "read", "write", "write", "seek", "tell", "close", "renumber", "mkdir",
-		"filestat", "pathstat", "fdstat", "prestat", "clock", "random", "args", "environ", "readdir", "readdir", "readdir", "readdir"}).Draw(t, "k")
+		"filestat", "pathstat", "fdstat", "prestat", "clock", "random", "args", "environ", "readdir", "readdir", "readdir", "readdir", "closemod"}).Draw(t, "k")
 	switch op.K {
 	case "open":
 		op.S = rapid.SampledFrom(wPaths).Draw(t, "path")
@@ -425,9 +448,19 @@ func genWOp(t *rapid.T, n int) WOp {
 
 func propWasi(t *rapid.T) {
 	c := &WCase{Engine: rapid.SampledFrom(wz.Engines).Draw(t, "engine"), N: rapid.IntRange(2, 3).Draw(t, "n")}
+	c.SharedStdout = rapid.IntRange(0, 2).Draw(t, "sharedstdout") == 0
 	n := rapid.IntRange(3, 24).Draw(t, "nops")
 	for i := 0; i < n; i++ {
-		c.Ops = append(c.Ops, genWOp(t, c.N))
+		op := genWOp(t, c.N)
+		if c.SharedStdout && op.A == 1 {
+			// the file behind fd 1 is shared by the embedder's choice: its offset and size depend on
+			// the other guests' writes; only writing, closing and fdstat are independent of them
+			switch op.K {
+			case "tell", "seek", "filestat", "read", "renumber":
+				continue
+			}
+		}
+		c.Ops = append(c.Ops, op)
 	}
 	rc := map[string]any{"wasi": c}
 	evid.Journal(rc)
@@ -436,13 +469,16 @@ func propWasi(t *rapid.T) {
 		evid.Fail(t, rc, "%s (engine %s)", msg, c.Engine)
 	}
 	lbl := []string{"wasi-isolation"}
+	if c.SharedStdout {
+		lbl = append(lbl, "wasi-shared-stdout-file")
+	}
 	for _, op := range c.Ops {
 		if op.K == "readdir" {
 			lbl = append(lbl, "wasi-readdir")
 			break
 		}
 	}
-	evid.Case(evid.Hash64("wasi", c.Engine, c.N, fmt.Sprint(c.Ops)), nt, lbl...)
+	evid.Case(evid.Hash64("wasi", c.Engine, c.N, c.SharedStdout, fmt.Sprint(c.Ops)), nt, lbl...)
 	if nt {
 		evid.Sample("wasi-history", 2, c)
 	}
